@@ -10,6 +10,7 @@ import SympdeModel.Model.Lower
 import SympdeModel.Model.Calc
 import SympdeModel.Model.Norm
 import SympdeModel.Model.Forms
+import SympdeModel.Model.Linearize
 import SympdeModel.Model.Pattern
 import SympdeModel.Model.BC
 import SympdeModel.Model.Atoms
@@ -34,6 +35,7 @@ def dispatch (line : String) : String :=
       | "C02" => Calc.handle args
       | "C11" => Norm.handle args
       | "C06" => Forms.handle args
+      | "C09" => Lin.handle args
       | "C20" => Pat.handle args
       | "C18" => BC.handle args
       | "C17" => Atoms.handle args
